@@ -11,18 +11,18 @@ LEVEL_TEXT = {
  "C03": ("other", "Folded lane predicate (true set = {0..4}), slot-store term rule, decision tables of refinement and longest-sustain over their own atoms, end-time wiring term match, max-over-end_timestamp aggregator.", "4/C03"),
  "C04": ("other", "Complete decision table (2^6 valuations) of the HOPO function extracted by path enumeration over uninterpreted atoms and compared with the specification; each atom's definition checked on the term (<=, round(res/3) with folded divisor, !=, chord folded over 32 notes); call-site wiring.", "4/C04"),
  "C05": ("other", "Half-open atoms term-matched; star-power lookup matched against first-hit scan schema S2; tail decision table; cursor qualifier threading through the grouping loop.", "4/C05"),
- "C06": ("other", "Folded 40-row header table compared with the file-format table; parser/tag agreement; required-section guard dominance; framing loop schema S5 with affine body range; splitlines / utf-8-sig constants; header recogniser language and capture exactness by automata.", "4/C06"),
+ "C06": ("other", "Folded 40-row header table compared with the file-format table; parser/tag agreement; required-section guard dominance; framing loop schema S5 with affine body range; splitlines / utf-8-sig constants; header recogniser language and capture exactness by automata; every partial operation of the reading / framing / routing code discharged (the missing-section ValueError cannot turn into an internal error).", "4/C06"),
  "C07": ("proof", "Automata-theoretic proof obligations over the shipped N/S/E recognisers for all strings: Canon ⊆ L ⊆ Upper, capture exactness under backtracking priority, group contents ⊆ conversion domains; closed-world conversion chain.", "4/C07"),
  "C08": ("proof", "Same obligations for B/TS/A plus: tempo = one correctly rounded int(raw)/1000 reaching the constructor and a validator that cannot reject it; 2**l / default-4 numerals; microsecond anchors.", "4/C08"),
  "C09": ("proof", "Effective language of each global-event kind under first-match-wins equals the specification language (automata difference/intersection), capture exactness, dispatcher schema and order read from the dispatch site.", "4/C09"),
- "C10": ("proof", "276 pairwise intersections of the 24 field recognisers empty; 24 canonical inclusions and capture-exactness checks (priority dependent); agreement table field <-> key <-> literal <-> Pascal name <-> conversion <-> type; defaults table; required Resolution.", "4/C10"),
+ "C10": ("proof", "276 pairwise intersections of the 24 field recognisers empty; 24 canonical inclusions and capture-exactness checks (priority dependent); agreement table field <-> key <-> literal <-> Pascal name <-> conversion <-> type; defaults table; per-field flow by specialising the setter/scan helpers on each constant field name (one unconditional store under the own key from the first matching line, MissingRequiredField exactly for an absent Resolution), independent of how the helpers are cut.", "4/C10"),
  "C11": ("other", "Hint-independence lemma premises: exact rejected sets of both start checks dominating every return, scan schema S2, query a function of (tick, index) only, hint sources and stored cursors by term equality at all hinted sites.", "4/C11"),
  "C12": ("other", "Monotonicity abstract domain over the seconds formula under guard-established signs; sibling agreement of accumulate and query terms; one conversion mode; order guard; tick-only dependence; purity of the public queries.", "4/C12"),
  "C13": ("other", "Decision table of the selection filter; taint of the selection parameter; skipped bodies never consumed; own-lines/own-key wiring; track builder effect-free on shared state.", "4/C13"),
  "C14": ("proof", "Dispatcher = per-item dispatch schema S3 (exactly one append or one warning per line, no cross-line state); pairwise disjointness of recogniser languages inside sync and instrument sections by automata intersection; totality of conversions on claimed lines.", "4/C14"),
  "C15": ("other", "Each validator's rejected set equals the untrusted set (decision tables over comparison atoms), guards dominate every result, validators reached on every path from Chart.from_file, ValueError not swallowed on any chain (call graph + handler analysis), times only through the guarded formula.", "4/C15"),
  "C16": ("other", "Decision table of bound resolution (None/int/timedelta x start/end), closed-interval count term, duration and guard sets, KeyError->ValueError conversion scope, default end = last-note end.", "4/C16"),
- "C17": ("other", "Effect analysis over the parse-reachable call graph and the whole package: no write outlives a call except memo tables of pure immutable-returning functions; fresh accumulators; no ambient reads; no iteration over unordered collections on the result path.", "4/C17"),
+ "C17": ("other", "Effect analysis over the parse-reachable call graph and the whole package: no write outlives a call except memo tables of pure immutable-returning functions; fresh accumulators; no ambient reads; no iteration over unordered collections on the result path; every class a parsed chart contains renders by value (no address-printing object.__repr__).", "4/C17"),
  "C18": ("other", "May-raise analysis: explicit raises escaping the entry points ⊆ documented set; unreachable branches proved; partial operations discharged by a closed idiom list; rendering methods total for their field types.", "4/C18"),
  "C19": ("other", "Frozen-ness of every event/track class reachable from Chart; read-only API has no write effect; no auto-inserting mapping escapes; dict-based __eq__/__repr__ never meets a lazily written attribute.", "4/C19"),
  "C20": ("model_checking", "Exhaustive exploration of an abstract import machine (CPython import semantics restricted to what can fail) over all first-imports / all import sequences and deferred imports; syntactic side conditions for order-independent bindings.", "4/C20"),
